@@ -27,20 +27,20 @@ TEXT = {
  "C01": ("Lean theorems: for all six kinds MarshalCBOR's output is decoded back to the same wire array (tag/prefix stripping proved), and UnmarshalCBOR answers the same on the bare array, the tagged array and the CWT-tagged one for every well-formed wire array (C01Forms: unmarshal_form_independent), so each round trip below holds in all three forms; protected, payload/ciphertext and signature/tag come back byte for byte; "
          "a COSE_Sign1 / COSE_Mac0 produced with default headers verifies under any verifier correct for the signer and yields the original payload, for every payload, external data, key and every unprotected map "
          "with scalar / list values in whatever order Go presents its entries (the decoded unprotected map answers every look-up with the decoded form of the original value); "
-         "the same with a caller-supplied protected map of distinct in-range labels and scalar / list values in any order that does not contradict the key (C01Prot: the protected bytes authenticated are the ones decoded, the decoded protected map answers every look-up like the original, the algorithm check sees the same algorithm); "
+         "the same with a caller-supplied protected map of distinct in-range labels and scalar / list values in any order that does not contradict the key (C01Prot: the protected bytes authenticated are the ones decoded, the decoded protected map answers every look-up like the original, the algorithm check sees the same algorithm; also for COSE_Encrypt0 with every nonce choice: enc0_roundtrip_prot), and with payloads of a named byte-slice type, nil included (auth4_roundtrip_named: CBOR byte string / null on the wire, the same octets back); "
          "typed payloads (claims maps, keys) come back answering every look-up as the original, and a CWT produced this way is validated exactly like the original claims for every validator configuration (CwtEndToEnd); "
          "a COSE_Encrypt0 produced with default protected header decrypts to the original payload for every payload, external data, unprotected map and nonce choice (caller IV, Partial IV + Base IV, library-drawn nonce), with no cryptographic hypothesis for the three AEAD models (C12 round-trip theorems); "
          "a COSE_Sign signed by any number of signers (default per-signature headers) decodes to one signature per signer and verifies under every verifier list in which each signer's kid finds a verifier of the same algorithm accepting what the signer signs - "
          "e.g. counterpart keys with pairwise different kids (C01Sign, induction over the signer list); a COSE_Mac carrying any number of three-member recipients passes the decoder's first-octet recipient dispatch, returns its recipients and verifies (C01Mac). "
          "The model is tied to the library by byte-exact produce + consume correspondence over 6 kinds x 24 algorithms x 3 tag forms",
          "signature correctness assumed (cross-checked by Lean ECDSA/Ed25519); caller-supplied protected maps, nested-map header values, nested recipients and COSE_Encrypt with recipients by correspondence only", T, "7.1"),
- "C02": ("Lean theorems: verification soundness (success implies the primitive accepted exactly the RFC 9052 structure of the received protected/payload bytes and caller's external data), injectivity of the structure "
+ "C02": ("Lean theorems: for all six kinds at once (Props/Authd: the bytes handed to the primitive are the encoding of the RFC structure, and equal bytes imply equal kind, body protected bytes, signer protected bytes (COSE_Sign), external data (absent = empty) and payload: tamper_is_forgery, kinds_separate, sign_signer_bucket_is_authenticated); verification soundness (success implies the primitive accepted exactly the RFC 9052 structure of the received protected/payload bytes and caller's external data), injectivity of the structure "
          "(tampering = forgery), kind change changes the bytes, zero signatures / unmatched kid / any failing signature reject, a null or non-array entry in the signatures list makes the message undecodable (one signature object per wire element), and conversely a genuine COSE_Sign of any number of signers verifies (C01Sign); history freedom over regenerated footprints (UnmarshalCBOR overwrites every field Verify reads, Verify recomputes the to-be-signed bytes and writes nothing else). Executable model with Lean primitives predicts the verdict of every mutated message in the run",
          "unforgeability of the primitives assumed", T, "7.2"),
- "C03": ("Lean theorems: decrypt soundness (success implies the AEAD opened the received ciphertext under the nonce derived from the received headers with AAD = RFC 9052 Enc_structure), AAD injectivity, "
+ "C03": ("Lean theorems: for all six kinds at once (Props/Authd: the bytes handed to the primitive are the encoding of the RFC structure, and equal bytes imply equal kind, body protected bytes, signer protected bytes (COSE_Sign), external data (absent = empty) and payload: tamper_is_forgery, kinds_separate, sign_signer_bucket_is_authenticated); decrypt soundness (success implies the AEAD opened the received ciphertext under the nonce derived from the received headers with AAD = RFC 9052 Enc_structure), AAD injectivity, "
          "payload untouched on every failure; Decrypt recomputes the Enc_structure on every call (regenerated footprint); with C12's uniqueness an accepted change is a tag forgery. Mutation run with payload inspection after failed Decrypt, reuse of one message object / encryptor across two messages (msg.reuse), and the AEAD primitives themselves (prim:aead)",
          "AEAD security assumed", T, "7.3"),
- "C04": ("Lean theorems over the toSign/toMac/toEnc literals extracted from the source on every run: each equals the RFC 9052 Sig_/MAC_/Enc_structure for all protected, payload and external values (nil/empty/any), contexts distinct, "
+ "C04": ("Lean theorems: for all six kinds at once (Props/Authd: the bytes handed to the primitive are the encoding of the RFC structure, and equal bytes imply equal kind, body protected bytes, signer protected bytes (COSE_Sign), external data (absent = empty) and payload: tamper_is_forgery, kinds_separate, sign_signer_bucket_is_authenticated); theorems over the toSign/toMac/toEnc literals extracted from the source on every run: each equals the RFC 9052 Sig_/MAC_/Enc_structure for all protected, payload and external values (nil/empty/any), contexts distinct, "
          "structure injective. Recording wrappers show the library hands exactly these bytes to the primitives on produce and verify, incl. non-canonical peer encodings of protected buckets (verbatim use)",
          "RFC 9052 reading trusted; extractor recogniser trusted", T, "7.4"),
  "C05": ("Lean theorems: a protected alg different from the key's is refused on every entry point whatever the primitive would answer (result independent of the primitive), for any Go integer kind; unreadable values count as 0 "
